@@ -61,19 +61,19 @@ func readFrameOfType(fType byte, reader *bufio.Reader, isTCP bool) (frame, error
 		data, err = reader.ReadBytes('\r')
 	case 'd':
 		// Peek length
-		peeked, err := reader.Peek(2)
+		var peeked []byte
+		peeked, err = reader.Peek(2)
 		if err != nil {
 			return nil, err
 		}
-		length := binary.BigEndian.Uint16(peeked) + 2 // +2 to include the length bytes
+		length := int(binary.BigEndian.Uint16(peeked)) + 2 // +2 to include the length bytes
+		if length < 5 {
+			return nil, errors.New("Data frame too short")
+		}
 
 		// actual data
 		data = make([]byte, length)
-		var n int
-		for read := 0; read < int(length) && err == nil; {
-			n, err = reader.Read(data[read:])
-			read += n
-		}
+		_, err = io.ReadFull(reader, data)
 	default:
 		return nil, fmt.Errorf("Unexpected frame type %c", fType)
 	}
